@@ -47,6 +47,23 @@ type checker struct {
 
 func vstr(v mqttx.Version) string { return fmt.Sprint(int(v)) }
 
+// sigV is the version named in signatures: the reader's version, except for
+// CONNECT, which carries its own protocol level (the reader's setting is
+// irrelevant for it).
+func sigV(ci caseInfo) string {
+	if len(ci.in) > 0 && ci.in[0]>>4 == mqttx.CONNECT {
+		if h := parseHeader(ci.in); h.ok {
+			body := ci.in[1+h.k:]
+			if len(body) >= 2 {
+				if n := int(body[0])<<8 | int(body[1]); len(body) > 2+n {
+					return fmt.Sprint(int(body[2+n]))
+				}
+			}
+		}
+	}
+	return vstr(ci.v)
+}
+
 func (c *checker) detail(ci caseInfo, extra map[string]any) map[string]any {
 	d := map[string]any{"generator": ci.gen, "reader_version": int(ci.v), "input_hex": hexTrunc(ci.in), "input_len": len(ci.in), "trailer_appended": !ci.noTrailer}
 	if ci.mustReject != "" {
@@ -79,7 +96,7 @@ func (c *checker) runCase(ci caseInfo) (accepted bool) {
 	hs := parseHeader(stream)
 	exact := hin.ok && !hin.overlong && hin.total() == int64(len(ci.in))
 	readSecond := exact && !ci.noTrailer
-	tn, vs := typeNameOf(ci.in), vstr(ci.v)
+	tn, vs := typeNameOf(ci.in), sigV(ci)
 
 	var res decRes
 	if c.serial {
@@ -179,6 +196,18 @@ func (c *checker) runCase(ci caseInfo) (accepted bool) {
 		} else {
 			r.Count("lenient_accept_of_malformed", 1)
 			r.Distinct("lenient_accept_kinds", genClass(ci.gen)+":"+ci.gen+":"+tn)
+			// an inner length field (string, binary, property length) that runs past the end of the
+			// packet, or is missing altogether, and was still accepted: the decoder read the field
+			// past the declared length of what encloses it
+			if me, ok := merr.(*mqttx.MalformedError); ok && strings.HasPrefix(me.Reason, "truncated ") {
+				what := strings.TrimPrefix(me.Reason, "truncated ")
+				if i := strings.Index(what, " (need"); i >= 0 {
+					what = what[:i]
+				}
+				what = strings.ReplaceAll(what, " ", "_")
+				r.Violation("decode.accept_overrun:field="+what, "accepted although the field '"+what+"' runs past the end of its enclosing packet/property area (independent decoder: "+me.Reason+")",
+					c.detail(ci, map[string]any{"gmqtt_packet": res.pkt.String()}))
+			}
 			if ci.mustReject != "" {
 				sig := "decode.accept_invalid:type=" + tn + ":" + ci.mustReject
 				if ci.v == mqttx.V5 && strings.HasSuffix(ci.mustReject, "field=Topic:class=empty") {
@@ -218,7 +247,7 @@ func genClass(g string) string {
 // decodes to M); TotalBytes after Pack must be the encoded length.
 func (c *checker) reencode(ci caseInfo, pkt packets.Packet, G, M *mqttx.Packet) {
 	r := c.r
-	tn, vs := typeNameOf(ci.in), vstr(ci.v)
+	tn, vs := typeNameOf(ci.in), sigV(ci)
 	var flags0 byte
 	if fh := fixHeaderOf(pkt); fh != nil {
 		flags0 = fh.Flags
@@ -280,7 +309,7 @@ func (c *checker) reencode(ci caseInfo, pkt packets.Packet, G, M *mqttx.Packet) 
 
 // wfReject reports a well-formed packet of the server domain that gmqtt refuses.
 func (c *checker) wfReject(ci caseInfo, M *mqttx.Packet, derr error) {
-	tn, vs := typeNameOf(ci.in), vstr(ci.v)
+	tn, vs := typeNameOf(ci.in), sigV(ci)
 	field, decisive := ablate(M, func(q *mqttx.Packet) (valid, rej bool) {
 		b, err := mqttx.Encode(q, ci.v)
 		if err != nil {
@@ -476,6 +505,9 @@ func Run(r *monitor.Run) {
 		c.wfCases(fmt.Sprintf("wf-%d-%d-%d", j.cb.t, j.cb.v, j.k), j.cb, chunk, truncPer, mutPer)
 	})
 
+	// ---- 2b. the directed mutations, systematically
+	c.catalogue(combos)
+
 	// ---- 3. generator (iii): raw random bytes
 	rawN := r.Pick(12000, 2400000)
 	rawChunk := r.Pick(1000, 50000)
@@ -571,7 +603,7 @@ func (c *checker) runDeferred() {
 		}
 		return string(big[i].in) < string(big[j].in)
 	})
-	limit := r.Pick(40, 400)
+	limit := r.Pick(60, 400)
 	r.Count("deferred_big_declarations", int64(len(big)))
 	c.serial = true
 	runtime.GC()
